@@ -960,6 +960,71 @@ def check_C18(chk):
                       BASE_ASSUME)
 
 
+def alloc_design(chk):
+    """Design-level allocator model (spec/Alloc.tla): TLC checks the contract
+    on every state of a tiny geometry (MC_AllocSmall) and evaluates the model
+    with the real geometry on boundary-shaped refcount patterns (Gen_Alloc);
+    each of those behaviours is replayed into the real allocator through
+    hooks H3/H4 and result, refcounts and hint are compared (binding B3)."""
+    t0 = time.time()
+    _, gen0, dist0 = Q.tlc_enumerate("MC_AllocSmall.tla", need_recs=False, workers=8, timeout=900)
+    vecs, gen1, dist1 = Q.tlc_enumerate("Gen_Alloc.tla", env={"QUICK": "1" if chk.tier == "quick" else "0"}, timeout=1800)
+    scens = []
+    for i, v in enumerate(vecs):
+        scens.append({"name": f"av-{i}", "bsb": 9,
+                      "images": [{"kind": "build", "desc": {"cb": 10, "ro": 6, "vclusters": 16, "shuffle": 0, "holes": 0, "clusters": []}}],
+                      "params": {"rb": [9, 1024], "l2": [9, 1024]}, "sched": {"policy": "fifo", "seed": 1},
+                      "rc_pattern": {"used": v["used"], "rb1": v["rb1"], "hint": v["hint"]},
+                      "steps": [{"op": "alloc", "n": v["count"]}, {"op": "rcdump", "n": 384},
+                                {"op": "free_alloc", "idx": 0}, {"op": "rcdump", "n": 384}]})
+    tp, _, summ = Q.run_harness(scens, chk.wd, "allocvec")
+    # split the trace into runs
+    runs, cur = [], None
+    with open(tp) as f:
+        for line in f:
+            if '"e":"Reset"' in line:
+                cur = []
+                runs.append(cur)
+            elif cur is not None and ('"e":"Ret"' in line or '"e":"Note"' in line or '"e":"Panic"' in line or '"e":"Stuck"' in line):
+                cur.append(json.loads(line))
+    if len(runs) != len(vecs):
+        raise Q.ToolError(f"allocator replay: {len(runs)} runs for {len(vecs)} vectors")
+    bad = 0
+    for v, sc, evs in zip(vecs, scens, runs):
+        rets = [e for e in evs if e["e"] == "Ret"]
+        dumps = [e for e in evs if e["e"] == "Note" and e.get("msg") == "rcdump"]
+        why = None
+        if any(e["e"] in ("Panic", "Stuck") for e in evs):
+            why = "the allocator panicked or hung: " + json.dumps([e for e in evs if e["e"] in ("Panic", "Stuck")])[:200]
+        elif not rets or len(dumps) != 2:
+            raise Q.ToolError(f"allocator replay: malformed run {sc['name']}")
+        else:
+            r = rets[0]
+            got = [r["c"], r["n"]] if r["res"] == "ok" else [-1, 0]
+            exp = list(v["res"])
+            if got != exp:
+                why = f"allocate_clusters({v['count']}) returned {got}, Alloc.tla says {exp}"
+            elif dumps[0]["used"] != sorted(v["used_after"]):
+                why = f"refcounts after allocation differ from Alloc.tla: extra {sorted(set(dumps[0]['used']) - set(v['used_after']))[:8]} missing {sorted(set(v['used_after']) - set(dumps[0]['used']))[:8]}"
+            elif dumps[0]["hint"] != v["hint_after"]:
+                why = f"free hint after allocation {dumps[0]['hint']}, Alloc.tla says {v['hint_after']}"
+            elif dumps[1]["used"] != sorted(v["used_freed"]):
+                why = f"refcounts after freeing the run differ from Alloc.tla"
+            elif dumps[1]["hint"] != v["hint_freed"]:
+                why = f"free hint after free {dumps[1]['hint']}, Alloc.tla says {v['hint_freed']}"
+        if why:
+            bad += 1
+            if bad <= 3:
+                sc2 = dict(sc, expected=v)
+                chk.report({"scenario": sc2}, chk.prop, f"{sc['name']}: {why}", "allocvec:" + why[:60])
+    chk.extra.update(alloc_model_states=dist0, alloc_vectors_replayed=len(vecs), alloc_vectors_mismatched=bad,
+                     alloc_seconds=round(time.time() - t0, 1))
+    chk.nruns += len(vecs)
+    chk.accepted += len(vecs) - bad
+    chk.stats["states"] += gen0 + gen1
+    chk.stats["distinct"] += dist0 + dist1
+
+
 def check_C08(chk):
     """one owner per host cluster; allocator never double-allocates; reuse"""
     rng = random.Random(chk.seed * 31 + 8)
@@ -1040,8 +1105,12 @@ def check_C08(chk):
     chk.consume(res, st, props=("C08", "C07", "PANIC"))
     for name, r in res.items():
         chk.nontrivial.add(name)
+    alloc_design(chk)
     return chk.finish("model_checking",
-                      "hook H1 samples the in-ram metadata view after every scheduler step (recorded on change) and TLC evaluates Inv_C08 on it: "
+                      "design model spec/Alloc.tla (transcription of allocate_clusters / try_allocate_from / get_free_range / tail range / "
+                      "fragment retry / free hint): contract checked by TLC on every refcount pattern, hint and request of a 2x(2x4)-entry geometry "
+                      "(MC_AllocSmall) and its behaviours on boundary-shaped patterns of the real 64-entry slices replayed into the real allocator "
+                      "(result, refcounts, hint compared); hook H1 samples the in-ram metadata view after every scheduler step (recorded on change) and TLC evaluates Inv_C08 on it: "
                       "no host cluster referenced twice, refcount >= references, hook-allocated clusters owned by nobody else; allocation histories "
                       "driven through hook H3 (single/multi-cluster, fragmenting frees, slice and refblock boundaries, concurrent allocators and "
                       "writers): Inv_C08alloc (run aligned, contiguous, <= requested, free when the call started, given to one requester); write/"
